@@ -36,9 +36,35 @@ func HC17Step() {
 			lens = append(lens, i)
 		}
 	}
+	// tar only: the size field of the first header is either left symbolic (as every other byte) or pinned to a
+	// writer-style octal spelling, with header lengths at the record boundaries that follow the entry's content;
+	// arithmetic on a pinned size is concrete, which keeps the obligations linear for the solver
+	tarSize := -1
+	if d == tar {
+		sizes := []int{-1, 0, 512}
+		ends := []int{1024, 1536, 2048}
+		if tier == 1 {
+			sizes = append(sizes, 1, 513, 1024)
+			ends = append(ends, 2560, 3072)
+		}
+		tarSize = sizes[vChoice("tarSize", len(sizes))]
+		if tarSize >= 0 {
+			lens = ends
+		}
+	}
 	n := lens[vChoice("len", len(lens))]
 	vAssume(n >= 1)
 	raw := vBytes("raw", n, n)
+	if tarSize >= 0 {
+		sp := []byte("00000000000\x00")
+		for i, v := 10, tarSize; i >= 0; i-- {
+			sp[i] = byte('0' + v%8)
+			v /= 8
+		}
+		for i := range sp {
+			vAssume(raw[124+i] == sp[i])
+		}
+	}
 	l1 := vUint32("l1")
 	l2 := vUint32("l2")
 	vAssume(d.detector(raw[:n-1:n-1], l1))
@@ -50,6 +76,27 @@ func HC17Step() {
 	}
 	// the format itself let go: some other binary root format must take over
 	vReach("handover")
+	// cheap witness search first: one concrete member of this path class (a model of the path condition) is run
+	// through the other formats concretely; if none takes over, that member is the counterexample. Otherwise the
+	// for-all evaluation below decides the whole class.
+	if pr := vProbe(raw, l2); len(pr) == n+4 {
+		cl2 := uint32(pr[n]) | uint32(pr[n+1])<<8 | uint32(pr[n+2])<<16 | uint32(pr[n+3])<<24
+		craw := pr[:n:n]
+		taken := false
+		for _, o := range append([]*MIME{mdb, accdb}, kids...) {
+			if o == text || o == d {
+				continue
+			}
+			if o.detector(craw, cl2) {
+				taken = true
+				break
+			}
+		}
+		if !taken {
+			vAssume(vSameBytes(raw, craw) && l2 == cl2)
+			vAssert(false, "longer-header-still-binary")
+		}
+	}
 	other := false
 	// existence is order-independent: the formats the font check defers to are tried first
 	for _, o := range append([]*MIME{mdb, accdb}, kids...) {
